@@ -259,7 +259,10 @@ def rand_class(rng, allow_qualified=True):
                 if cg.POS[m[1]][1] == "c":
                     m = (m[0], "PBody") + tuple(m[2:])
                 body.append(m)
-            members.append(("method", dict(name="m%d" % j, decos=rng.choice([[], [], ["property"], ["staticmethod"], ["classmethod"]]),
+            prev = [m[1]["name"] for m in members if m[0] == "method"]
+            # now and then a second / third def of a name the class already has (redefinition)
+            mname = rng.choice(prev) if prev and rng.random() < 0.25 else "m%d" % j
+            members.append(("method", dict(name=mname, decos=rng.choice([[], [], ["property"], ["staticmethod"], ["classmethod"]]),
                                            params=[rty() if rng.random() < 0.5 else None for _ in range(rng.randint(0, 2))],
                                            ret=rty() if rng.random() < 0.4 else None, body=body)))
     bases = [rref() for _ in range(rng.randint(0, 2))]
@@ -1381,7 +1384,12 @@ def main(tier):
         "rule": "position x import-form matrix (one instantiation per class), nested matrix (an instantiation hidden in the argument list of another call: "
                 "host kind x argument slot x statement context, full cross for assignment-like contexts, depth up to 4, one-more-argument pairs), base/annotation form x shape x place matrix, "
                 "project classes NAMED like a built-in (every name of cbo.go's regenerated built-in type table and some of its function table: written through a module - import m / import m as a / unimported qualifier - as base, in an annotation (place and shape rotate) and instantiated (position rotates over all expression positions, and hidden in an argument slot): counted under the dotted name; written bare after from-import / import-as / a same-file class of that name: the built-in by name; include_builtins false and true), "
-                "threshold lattice (0..10 dependencies x 10 threshold pairs), random classes with 5 metamorphic variants each "
+                "several function definitions sharing ONE name inside the class subtree (@property getter + @x.setter + @x.deleter, @overload stubs + implementation, plain redefinition - also async / static / class method -, "
+                "same-named local helper functions inside different methods, __init__ of the class and of nested classes, same-named methods of nested classes; 2 and 3 defs) with one otherwise-unmentioned project class "
+                "(import form rotates) in one coupling position (parameter annotation, return annotation - shape rotates -, default value, body instantiation at a rotating position / hidden in an argument, method call on the name, base class) "
+                "of the FIRST / MIDDLE / LAST def, the other defs bare / typed with classes of their own, in EVERY order of the members holding the defs, thresholds placed at / next to the count: "
+                "decided against Class/CBO.v (nested defs and nested-class methods flattened into methods of the class) and by the law that permuting the members leaves count, set and risk unchanged, "
+                "threshold lattice (0..10 dependencies x 10 threshold pairs), random classes (a quarter of the methods re-use the name of an earlier method) with 5 metamorphic variants each "
                 "(repeat, reorder, rename self, add unrelated, add one coupled class - also one living in another module and named like a built-in type), built-ins included (every position x built-in type; built-in function / local class in assignment-like positions), "
                 "positions outside Class/Syntax.v as Python templates (c14.EXTRA_POSITIONS that hold any expression: f-string in an implicit concatenation, yield from, except T as e, every `if` of a comprehension, typed defaults of a nested def, bases / keywords of a nested class, match guard, slices, await ...) x (local class, from-import) x (bare, hidden in an argument), decided against the ast.Call nodes of Python's own syntax tree, "
                 "subscripted forms (class K(Base[T]) x import form x arity, x: mod.Container[T] x place x import form), parser position table (find-path), "
@@ -1392,7 +1400,7 @@ def main(tier):
                 "CLI runs (default, [cbo] thresholds, include_builtins = true, include_imports = false, [analysis] exclude_patterns matching class names); "
                 "distinct = distinct source texts",
         "input_distribution": dict(dist, position_table_probes=n_table, python_template_positions=n_extra, metamorphic_relations=n_meta, e2e_classes=n_e2e, subscript_forms=n_gen,
-                                   multifile_projects=len(projs), multifile_classes_checked=n_mf),
+                                   multifile_projects=len(projs), multifile_classes_checked=n_mf, samename_groups=len(sn_groups), samename_permutation_disagreements=n_perm_bad),
         "known_finding_cases": n_known,
         "model_mismatches": n_tie,
         "disagreements_checked": n_viol + n_tie + n_known,
@@ -1400,5 +1408,6 @@ def main(tier):
     ck.trusted += ["Coq 8.16.1 kernel, vm_compute for model evaluation", "translator /verif/translator/gen_class.go (walked fields, built-in tables, flags, risk comparisons)",
                    "tree-sitter and its Python grammar (the parser model Class/Syntax.v:pos_path is checked against ast_builder.go per position, not proved)",
                    "hand-written model Class/CBO.v of internal/analyzer/cbo.go on the class-level syntax; harness/classgen.py pretty-printer (one template per position)",
+                   "same-named defs: a helper nested in a method / a method of a nested class is handed to Class/CBO.v as a method of the class itself (c13.py:sn_unit_members)",
                    "the container of a generic annotation (List[...], Dict[...]) is read as a typing construct, not as a coupled class"]
     ck.finish(assumptions=["classes are expressed in the class-level syntax of Class/Syntax.v; exclude patterns empty (as `pyscn analyze` passes them)"])
